@@ -47,26 +47,57 @@ theorem data_under_latest_handshake_key (p : Params) (rx : Reactions) (ops : Lis
   have := log_wf p rx ops s h pre _ post hlog
   exact ⟨this.1, this.2.2.1, this.2.2.2⟩
 
-theorem lastAccept_some_mem {cid : Nat} {l : List Ev} {k : Bytes} (h : lastAccept cid l = some k) : .accept cid k ∈ l := by
-  induction l with
-  | nil => cases h
+theorem foldl_keyStep_mem {cid : Nat} (l : List Ev) (k0 : Option Bytes) {k : Bytes}
+    (h : l.foldl (keyStep cid) k0 = some k) : k0 = some k ∨ .accept cid k ∈ l := by
+  induction l generalizing k0 with
+  | nil => exact .inl h
   | cons e t ih =>
-    simp only [lastAccept] at h
-    cases ht : lastAccept cid t with
-    | some k' => rw [ht] at h; cases h; exact List.mem_cons_of_mem _ (ih ht)
-    | none =>
-      rw [ht] at h
-      cases e <;> simp only [] at h <;> try cases h
-      rename_i c k'
-      by_cases hc : c = cid
-      · rw [if_pos hc] at h; cases h; subst hc; exact List.mem_cons_self ..
-      · rw [if_neg hc] at h; cases h
+    simp only [List.foldl_cons] at h
+    rcases ih _ h with h1 | h1
+    · cases e <;> simp only [keyStep] at h1
+      case accept c k' =>
+        by_cases hc : c = cid
+        · rw [if_pos hc] at h1; cases h1; subst hc; exact .inr (List.mem_cons_self ..)
+        · rw [if_neg hc] at h1; exact .inl h1
+      case forget c =>
+        by_cases hc : c = cid
+        · rw [if_pos hc] at h1; cases h1
+        · rw [if_neg hc] at h1; exact .inl h1
+      all_goals exact .inl h1
+    · exact .inr (List.mem_cons_of_mem _ h1)
+
+theorem lastAccept_some_mem {cid : Nat} {l : List Ev} {k : Bytes} (h : lastAccept cid l = some k) : .accept cid k ∈ l := by
+  rcases foldl_keyStep_mem l none h with h1 | h1
+  · cases h1
+  · exact h1
+
+/-- the handshake whose key a data packet uses is the LATEST handshake started on the connection: no
+    later handshake attempt (successful or not) lies between that acceptance and the data packet -/
+theorem lastAccept_no_later_forget {cid : Nat} (l1 l2 : List Ev) {k : Bytes}
+    (h : lastAccept cid (l1 ++ [.forget cid] ++ l2) = some k) : .accept cid k ∈ l2 := by
+  unfold lastAccept at h
+  rw [List.foldl_append, List.foldl_append] at h
+  simp only [List.foldl_cons, List.foldl_nil, keyStep, if_true] at h
+  rcases foldl_keyStep_mem l2 none h with h1 | h1
+  · cases h1
+  · exact h1
 
 /-- in particular an accepted handshake reply precedes every encrypted request on its connection -/
 theorem handshake_precedes_data (p : Params) (rx : Reactions) (ops : List Op) (s : S) (h : Fresh s)
     (pre post : List Ev) (cid ctr : Nat) (k f : Bytes)
     (hlog : logAfter p rx s ops = pre ++ [.wrData cid ctr k f] ++ post) : .accept cid k ∈ pre :=
   lastAccept_some_mem (data_under_latest_handshake_key p rx ops s h pre post cid ctr k f hlog).1
+
+/-- **C07 (no data after a failed handshake).** If a handshake was started on the connection (the
+    previous key is forgotten at that moment) before an encrypted request, then a handshake reply was
+    accepted AFTER that start: once a re-handshake has been attempted, the old key is never used again —
+    whether the attempt failed by timeout, error packet, a reply that does not verify, or cancellation. -/
+theorem no_data_after_failed_handshake (p : Params) (rx : Reactions) (ops : List Op) (s : S) (h : Fresh s)
+    (l1 l2 post : List Ev) (cid ctr : Nat) (k f : Bytes)
+    (hlog : logAfter p rx s ops = l1 ++ [.forget cid] ++ l2 ++ [.wrData cid ctr k f] ++ post) :
+    .accept cid k ∈ l2 := by
+  have := (data_under_latest_handshake_key p rx ops s h (l1 ++ [.forget cid] ++ l2) post cid ctr k f hlog).1
+  exact lastAccept_no_later_forget l1 l2 this
 
 /-- **C07 (counter).** In every history, of any length: each V3 packet (handshake request or encrypted
     request) carries as its counter the number of V3 packets written earlier on the same connection,
@@ -196,7 +227,7 @@ theorem authenticate_writes_only_handshakes_with_token (p : Params) (rx : Reacti
       · rcases g3 e he with h1 | h1 <;> cases e <;> simp_all [isClosed, isConnect, isData]
       · rcases g4 e he with ⟨_, _, _, rfl, _⟩ | h1 | h1
         · rfl
-        · cases e <;> simp_all [isAccept, isData]
+        · cases e <;> simp_all [isAccept, isKeyEv, isData]
         · cases e <;> simp_all [isClosed, isData]
     · intro cid ctr tok he
       rcases List.mem_append.1 he with he | he
@@ -205,7 +236,7 @@ theorem authenticate_writes_only_handshakes_with_token (p : Params) (rx : Reacti
         · cases heq
           simp [pickCred] at htok
           exact htok.symm
-        · simp [isAccept] at h1
+        · simp [isAccept, isKeyEv] at h1
         · simp [isClosed] at h1
 
 /-- **C07 (token, implicit).** Every handshake request written by a `send` (after a reconnect or an
@@ -224,7 +255,7 @@ theorem send_handshakes_carry_stored_token (p : Params) (rx : Reactions) (s s' :
     · rcases k1 _ he with h1 | h1 <;> simp [isClosed, isConnect] at h1
     · rcases k2 _ he with ⟨_, _, t', heq, htok⟩ | h1 | h1
       · cases heq; exact htok
-      · simp [isAccept] at h1
+      · simp [isAccept, isKeyEv] at h1
       · simp [isClosed] at h1
   · rcases k3 _ he with (⟨_, _, _, h1⟩ | ⟨_, h1⟩) | h1
     · cases h1
@@ -276,7 +307,7 @@ theorem expiry_forces_handshake (p : Params) (rx : Reactions) (s s' : S) (f : By
     intro x hx hxe; subst hxe
     rcases k2 x hx with ⟨_, _, _, rfl, _⟩ | h1 | h1
     · simp [isData] at hdata
-    · cases x <;> simp_all [isAccept, isData]
+    · cases x <;> simp_all [isAccept, isKeyEv, isData]
     · cases x <;> simp_all [isClosed, isData]
   obtain ⟨a', hpre, hte⟩ := mem_split_data hdec hta
   have hne : te ≠ [] := by rw [hte]; simp
@@ -288,7 +319,7 @@ theorem expiry_forces_handshake (p : Params) (rx : Reactions) (s s' : S) (f : By
     rcases List.mem_append.1 hy with hy | hy
     · rcases k2 y hy with ⟨_, _, _, rfl, _⟩ | h1 | h1
       · rfl
-      · cases y <;> simp_all [isAccept, isConnect]
+      · cases y <;> simp_all [isAccept, isKeyEv, isConnect]
       · cases y <;> simp_all [isClosed, isConnect]
     · rcases k3 y hy with (⟨_, _, _, rfl⟩ | ⟨_, rfl⟩) | h1
       · rfl
@@ -356,6 +387,7 @@ theorem lifetime_forces_new_connection (p : Params) (rx : Reactions) (s s' : S) 
   | connect c v => rcases hkind with hk | hk <;> simp [isData, isHs] at hk
   | closed c => rcases hkind with hk | hk <;> simp [isData, isHs] at hk
   | accept c k => rcases hkind with hk | hk <;> simp [isData, isHs] at hk
+  | forget c => rcases hkind with hk | hk <;> simp [isData, isHs] at hk
   | wrHS cid ctr tok =>
     exact ⟨hconn_pre hwf.2.1 hwf.2.2, by intro _ _ _ _ hh; cases hh⟩
   | wrV2 cid fr =>
@@ -381,8 +413,8 @@ theorem lifetime_forces_new_connection (p : Params) (rx : Reactions) (s s' : S) 
     hypotheses are met by real histories, e.g. `authenticate` on a fresh object logs a V3 connect
     followed by a handshake request with counter 0 carrying the token -/
 example :
-    (logAfter {} (fun _ _ => []) { w := { connects := [.ok] }, l := {} } [.authenticate [1, 2] [3]]).take 2 =
-      [.connect 1 true, .wrHS 1 0 [1, 2]] := by decide
+    (logAfter {} (fun _ _ => []) { w := { connects := [.ok] }, l := {} } [.authenticate [1, 2] [3]]).take 3 =
+      [.connect 1 true, .forget 1, .wrHS 1 0 [1, 2]] := by decide
 
 example : Fresh { w := { connects := [.ok] }, l := {} } := ⟨rfl, rfl, rfl⟩
 
